@@ -65,7 +65,7 @@ def run_check(pid, tier, jobs, t0, functions, bounds, assumptions, sig_keys=None
         if r["status"] != "ok":
             fnd.undecided("%s: %s %s" % (r["name"], r["status"], r.get("why", "")[:400])); continue
         for k in tot: tot[k] += r.get(k, 0)
-        if (r["accepted"] == 0 or r["rejected"] == 0) and not any(r["name"].startswith(v) for v in allow_vacuous):
+        if (r["accepted"] == 0 or (r["rejected"] == 0 and not r["cex"])) and not any(r["name"].startswith(v) for v in allow_vacuous):
             fnd.undecided("vacuity: template %s has %d accepted and %d rejected paths" % (r["name"], r["accepted"], r["rejected"]))
         for c in r["cex"]:
             a = c.get("assignment", {})
